@@ -1,3 +1,70 @@
-From DI Require Import PyStr Contents.
-Theorem C18_placeholder : True. Proof. exact I. Qed.
-Print Assumptions C18_placeholder.
+(* C18 - Contents index: the two returned mappings are complete and mutually
+   inverse.  The theorems are about the loop of parse_contents over decoded
+   lines; opening the file, gzip and decoding are exercised, not modelled. *)
+From Coq Require Import String.
+From Coq Require Import NArith List Bool.
+From DI Require Import Result PyStr Contents ContentsSpec ContentsFacts.
+Import ListNotations.
+Open Scope N_scope.
+
+(* any table of well-formed rows (paths with embedded spaces, one to many packages
+   with zero or more qualifiers, any padding >= 1) parses to the fold of its
+   (path, bare name) pairs in file order *)
+Theorem C18_parse_table : forall pads rows,
+  Forall wf_row rows -> length pads = length rows ->
+  parse_contents_lines false (map (fun pr => render_row (fst pr) (snd pr)) (combine pads rows)) =
+  Ok (fold_left add_event (events rows) ([], [])).
+Proof. exact parse_table_no_header. Qed.
+Print Assumptions C18_parse_table.
+
+(* each path maps to exactly the bare names of its rows, in order *)
+Theorem C18_by_path : forall rows p,
+  lookup p (fst (fold_left add_event (events rows) ([], []))) = by_path_spec rows p.
+Proof. exact by_path_complete. Qed.
+Print Assumptions C18_by_path.
+
+(* each package maps to exactly the paths of the rows naming it, in file order *)
+Theorem C18_by_package : forall rows n,
+  lookup n (snd (fold_left add_event (events rows) ([], []))) = by_package_spec rows n.
+Proof. exact by_package_complete. Qed.
+Print Assumptions C18_by_package.
+
+(* exact inverses, with multiplicity *)
+Theorem C18_inverse : forall rows p n,
+  count n (by_path_spec rows p) = count p (by_package_spec rows n).
+Proof. exact mappings_inverse. Qed.
+Print Assumptions C18_inverse.
+
+Theorem C18_header_ignored : forall narr hdr lines st,
+  forallb (fun l => negb (is_header_line l)) narr = true -> is_header_line hdr = true ->
+  contents_loop true false st (narr ++ hdr :: lines) = contents_loop true true st lines.
+Proof. exact header_ignored. Qed.
+Print Assumptions C18_header_ignored.
+
+Theorem C18_header_missing : forall lines,
+  forallb (fun l => negb (is_header_line l)) lines = true ->
+  parse_contents_lines true lines = Raise PyException.
+Proof. exact header_missing. Qed.
+Print Assumptions C18_header_missing.
+
+Theorem C18_header_undeclared : forall pre hdr post,
+  forallb (fun l => negb (is_header_line l)) pre = true -> is_header_line hdr = true ->
+  parse_contents_lines false (pre ++ hdr :: post) = Raise PyException.
+Proof. exact header_undeclared. Qed.
+Print Assumptions C18_header_undeclared.
+
+Example C18_wf_row_nonvacuous :
+  wf_row (mkRow (lit "usr/share/doc/a b/README") [(lit "universe/utils/", lit "bash"); ([], lit "g++")]).
+Proof.
+  unfold wf_row. cbn [r_path r_pkgs]. split; [discriminate|]. split; [vm_compute; reflexivity|].
+  split; [discriminate|]. split; [|vm_compute; reflexivity].
+  assert (NS : forall s, forallb (fun c => negb (is_space c)) s = true -> no_space s).
+  { intros s H. apply Forall_forall. intros c Hc. rewrite forallb_forall in H. now apply negb_true_iff, H. }
+  assert (NI : forall c s, forallb (fun x => negb (x =? c)) s = true -> ~ In c s).
+  { intros c s H Hi. rewrite forallb_forall in H. specialize (H _ Hi). now rewrite N.eqb_refl in H. }
+  constructor; [|constructor; [|constructor]]; cbn [fst snd]; split.
+  - split; [now apply NS|]. split; [now apply NI|]. right. exists (lit "universe/utils"). reflexivity.
+  - split; [discriminate|]. split; [now apply NS|]. split; now apply NI.
+  - split; [now apply NS|]. split; [now apply NI|]. now left.
+  - split; [discriminate|]. split; [now apply NS|]. split; now apply NI.
+Qed.
